@@ -14,6 +14,8 @@ NPRESS = 22
 CO = 4096          # argument values of the nested call of an xcall body in vals
 FO = 5120          # fp pressure values of an xcall body in vals
 XR = XO + 256      # results of the nested call of an xcall body in outs
+VC1, VC0 = 2688, 2696   # a word that is 1 / a word that is 0 in vals (branch conditions the optimiser cannot see)
+SCR = 4096         # scratch in outs (not printed): destination of skipped va_block_arg copies
 
 
 def func_header(proto):
@@ -134,22 +136,73 @@ def c06_mir(proto, body):
         B.append('va_start va')
         for k in (0, 8, 16):
             B.append('mov i64:%d(o), i64:%d(va)' % (VAO + k, k))
-        for i in range(nf, len(proto['args'])):
+        if body.get('vaplan'):
+            loc += ['i64:tz', 'i64:cnd', 'i64:lc']
+            if body.get('deadfx'):
+                # other insns with side effects whose outputs are dead
+                loc += ['i64:dda', 'i64:ddh']
+                B.append('alloca dda, 24')
+                B.append('call hp, helper, ddh, 3, 4')
+        i = nf
+        for pk, (mode, k) in enumerate(norm_plan(proto, body)):
             t, off = proto['args'][i], offs[i]
-            if G.is_blk(t):
-                k, s = t.split(':')
-                case = int(k[3:]) if len(k) > 3 else 0
-                B.append('add dst, o, %d' % off)
-                B.append('va_block_arg dst, va, %s, %d' % (s, case))
-            elif t == 'd':
-                B.append('va_arg t, va, d:0')
-                B.append('dmov d:%d(o), d:(t)' % off)
-            elif t == 'ld':
-                B.append('va_arg t, va, ld:0')
-                B.append('ldmov ld:%d(o), ld:(t)' % off)
-            else:
-                B.append('va_arg t, va, i64:0')
-                B.append('mov i64:%d(o), i64:(t)' % off)
+
+            def rd(dst_reg, store, t=t):
+                """one va_arg / va_block_arg of type t; store=None: the value is not looked at"""
+                if G.is_blk(t):
+                    kk, sz = t.split(':')
+                    case = int(kk[3:]) if len(kk) > 3 else 0
+                    B.append('add dst, o, %d' % (store if store is not None else SCR))
+                    B.append('va_block_arg dst, va, %s, %d' % (sz, case))
+                    return
+                mt = t if t in ('d', 'ld') else 'i64'
+                mv = {'d': 'dmov', 'ld': 'ldmov'}.get(t, 'mov')
+                B.append('va_arg %s, va, %s:0' % (dst_reg, mt))
+                if store is not None:
+                    B.append('%s %s:%d(o), %s:(%s)' % (mv, mt, store, mt, dst_reg))
+            if mode == 'use':
+                rd('t', off)
+            elif mode == 'skip':       # result register never read
+                rd('tz', None)
+            elif mode == 'over':       # result overwritten by the next va_arg before being read
+                rd('t', None)
+            elif mode == 'branch':     # the value is used on one path only
+                B.append('mov cnd, i64:%d(v)' % (VC1 if k else VC0))
+                if G.is_blk(t):
+                    B.append('bf vs%d, cnd' % pk)
+                    rd('t', off)
+                    B.append('jmp ve%d' % pk)
+                    B.append('vs%d:' % pk)
+                    rd('t', None)
+                    B.append('ve%d:' % pk)
+                else:
+                    mt = t if t in ('d', 'ld') else 'i64'
+                    B.append('va_arg t, va, %s:0' % mt)
+                    B.append('bf ve%d, cnd' % pk)
+                    B.append('%s %s:%d(o), %s:(t)' % ({'d': 'dmov', 'ld': 'ldmov'}.get(t, 'mov'), mt, off, mt))
+                    B.append('ve%d:' % pk)
+            elif mode == 'either':     # one path reads and uses, the other reads and drops
+                B.append('mov cnd, i64:%d(v)' % (VC1 if k else VC0))
+                B.append('bf vs%d, cnd' % pk)
+                rd('t', off)
+                B.append('jmp ve%d' % pk)
+                B.append('vs%d:' % pk)
+                rd('tz', None)
+                B.append('ve%d:' % pk)
+            elif mode in ('loopskip', 'looplast'):
+                # k arguments of one type consumed by a loop: none / only the last one is looked at
+                B.append('mov lc, %d' % k)
+                B.append('vl%d:' % pk)
+                if G.is_blk(t):
+                    rd('t', offs[i + k - 1] if mode == 'looplast' else None)
+                else:
+                    rd('t' if mode == 'looplast' else 'tz', None)
+                B.append('sub lc, lc, 1')
+                B.append('bgt vl%d, lc, 0' % pk)
+                if mode == 'looplast' and not G.is_blk(t):
+                    mt = t if t in ('d', 'ld') else 'i64'
+                    B.append('%s %s:%d(o), %s:(t)' % ({'d': 'dmov', 'ld': 'ldmov'}.get(t, 'mov'), mt, offs[i + k - 1], mt))
+            i += 1 if mode not in ('loopskip', 'looplast') else k
         B.append('va_end va')
     if kind in ('pressure', 'call'):
         B.append('call hp, helper, h, p0, p1')
@@ -263,6 +316,121 @@ def c06_mir(proto, body):
     return '\n'.join(L) + '\n'
 
 
+# ---------------------------------------------------------------- how a variadic body consumes its tail
+# plan = list of [mode, k]: use | skip | over | branch (k = condition) | either (k = condition) | loopskip (k args) |
+# looplast (k args).  Without a plan every argument is read and stored.
+
+def va_class(t):
+    return t if (G.is_blk(t) or t in ('d', 'ld')) else 'int'
+
+
+def norm_plan(proto, body):
+    """the plan cut / padded so that it covers the variadic arguments exactly (shrinking removes arguments)"""
+    nf, n = proto['nfixed'], len(proto['args'])
+    out, i = [], nf
+    for mode, k in (body.get('vaplan') or []):
+        if i >= n:
+            break
+        if mode in ('loopskip', 'looplast'):
+            k = max(1, min(k, n - i))
+            c = va_class(proto['args'][i])
+            j = 1
+            while j < k and va_class(proto['args'][i + j]) == c:
+                j += 1
+            k = j
+            out.append((mode, k))
+            i += k
+        else:
+            out.append((mode, k))
+            i += 1
+    while i < n:
+        out.append(('use', 1))
+        i += 1
+    return out
+
+
+def va_observed(proto, body):
+    """indices of the arguments whose values the body stores into outs"""
+    nf = proto['nfixed']
+    obs = set(range(nf))
+    i = nf
+    for mode, k in norm_plan(proto, body):
+        if mode == 'use' or (mode in ('branch', 'either') and k):
+            obs.add(i)
+        if mode == 'looplast':
+            obs.add(i + k - 1)
+        i += k if mode in ('loopskip', 'looplast') else 1
+    return obs
+
+
+def plan_remove(proto, body, idx):
+    """the plan after argument idx is removed from the prototype"""
+    if not body.get('vaplan') or idx < proto['nfixed']:
+        return body
+    out, i = [], proto['nfixed']
+    for mode, k in norm_plan(proto, body):
+        w = k if mode in ('loopskip', 'looplast') else 1
+        if i <= idx < i + w:
+            if w > 1:
+                out.append([mode, k - 1])
+        else:
+            out.append([mode, k])
+        i += w
+    return dict(body, vaplan=out)
+
+
+VA_STRATEGIES = ['random', 'random', 'skipfirst', 'alternate', 'lastonly', 'loops', 'paths']
+
+
+def va_plan(rng, proto, strategy=None):
+    """a consumption plan for the variadic tail: arguments of every class skipped (result unused / overwritten / used on
+    one path only), singly, in loops and in branches, with later arguments still read"""
+    nf, n = proto['nfixed'], len(proto['args'])
+    st = strategy or rng.choice(VA_STRATEGIES)
+    plan, i = [], nf
+    while i < n:
+        run = 1
+        while i + run < n and va_class(proto['args'][i + run]) == va_class(proto['args'][i]):
+            run += 1
+        last = i == n - 1
+        if st == 'skipfirst':
+            m = ['skip', 0] if i == nf else ['use', 1]
+        elif st == 'alternate':
+            m = [['skip', 'over'][(i - nf) // 2 % 2], 0] if (i - nf) % 2 == 0 and not last else ['use', 1]
+        elif st == 'lastonly':
+            m = ['use', 1] if last else [rng.choice(['skip', 'over']), 0]
+        elif st == 'loops' and run >= 2 and rng.random() < 0.7:
+            m = [rng.choice(['loopskip', 'looplast']), rng.randint(2, run)]
+        elif st == 'paths':
+            m = [rng.choice(['branch', 'either', 'either', 'use']), rng.randint(0, 1)]
+        else:
+            r = rng.random()
+            if run >= 2 and r < 0.15:
+                m = [rng.choice(['loopskip', 'looplast']), rng.randint(2, run)]
+            elif r < 0.5:
+                m = ['use', 1]
+            else:
+                m = [rng.choice(['skip', 'skip', 'over', 'branch', 'either']), rng.randint(0, 1)]
+        plan.append(m)
+        i += m[1] if m[0] in ('loopskip', 'looplast') else 1
+    return plan
+
+
+def va_plan_kind(proto, body):
+    """summary for the measured distribution"""
+    if not proto['vararg'] or not body.get('vaplan'):
+        return 'every variadic argument read and used' if proto['vararg'] else None
+    pl = norm_plan(proto, body)
+    obs = va_observed(proto, body)
+    n = len(proto['args'])
+    skipped = [i for i in range(proto['nfixed'], n) if i not in obs]
+    if not skipped:
+        return 'planned, nothing skipped'
+    later = any(j in obs for j in range(min(skipped) + 1, n))
+    coarse = {'skip': 'unused', 'over': 'overwritten', 'branch': 'one-path', 'either': 'one-path', 'loopskip': 'loop', 'looplast': 'loop'}
+    return 'skips (%s), %s' % ('+'.join(sorted(set(coarse[m] for m, _ in pl if m != 'use'))), 'a later argument is read' if later else 'nothing read afterwards')
+
+
 def gen_body(rng):
     kind = rng.choice(['plain', 'plain', 'pressure', 'pressure', 'alloca', 'alloca', 'fppress', 'call', 'leafpress', 'leafpress', 'inl'])
     return dict(kind=kind, nlive=rng.randint(6, 14), alloca_k=rng.choice([8, 24, 40, 100, 1, 17, 333, 32]),
@@ -368,6 +536,8 @@ def vals_buffer(proto, body, resvals):
         buf[CO:CO + len(cb)] = cb
     for i, b in enumerate(resvals):
         buf[RO + 16 * i:RO + 16 * i + len(b)] = b
+    buf[VC1:VC1 + 8] = (1).to_bytes(8, 'little')
+    buf[VC0:VC0 + 8] = bytes(8)
     if body['kind'] in ('pressure', 'call', 'leafpress'):
         for k, x in enumerate(body['press']):
             buf[PO + 8 * k:PO + 8 * k + 8] = x.to_bytes(8, 'little')
@@ -474,7 +644,14 @@ def compare_c06(proto, body, m, impl, vals, resvals, rblk_ptrs, engine='gen'):
     out = impl['out']
     outs = impl['outs']
     offs, _ = G.layout(proto)
+    observed = va_observed(proto, body)
     for i, (t, b, off) in enumerate(zip(proto['args'], vals, offs)):
+        if i not in observed:
+            # consumed by a va_arg / va_block_arg whose value the body does not look at: the slot must be untouched
+            n = len(b) if G.is_blk(t) else (10 if t == 'ld' else 8)
+            if outs[off:off + n] != b'\xa5' * n:
+                bad.append('param %d (%s variadic, skipped by the body): its slot in outs was written (%s)' % (i, t, outs[off:off + n].hex()))
+            continue
         if t.startswith('rblk'):
             got = int.from_bytes(outs[off:off + 8], 'little')
             if got != rblk_ptrs[i]:
